@@ -94,7 +94,10 @@ def _mutable_value(v):
         return False
     if isinstance(v, (ast.List, ast.Dict, ast.Set, ast.ListComp, ast.DictComp, ast.SetComp, ast.Call)):
         return True
-    if isinstance(v, (ast.Constant, ast.Name, ast.Attribute, ast.Lambda, ast.JoinedStr, ast.UnaryOp, ast.Compare)):
+    if isinstance(v, ast.Attribute):
+        # np.inf: no; OptimizationSettings().seed (attribute of an object constructed at import): yes
+        return _dotted(v) is None
+    if isinstance(v, (ast.Constant, ast.Name, ast.Lambda, ast.JoinedStr, ast.UnaryOp, ast.Compare)):
         return False
     if isinstance(v, ast.Tuple):
         return any(_mutable_value(e) for e in v.elts)
@@ -703,12 +706,89 @@ def fact_memoisation_sites():
     return coq_pairs(sorted(set(items)))
 
 
+def _const_text(v):
+    if isinstance(v, ast.Constant) and (v.value is None or isinstance(v.value, str)):
+        return "None" if v.value is None else v.value
+    raise Shape(f"action name/group is not a None/str literal: {_txt(v)}")
+
+
+def _single_return(cls_node, method):
+    for st in cls_node.body:
+        if isinstance(st, ast.FunctionDef) and st.name == method:
+            body = [b for b in st.body if not (isinstance(b, ast.Expr) and isinstance(b.value, ast.Constant))]
+            if len(body) == 1 and isinstance(body[0], ast.Return) and body[0].value is not None:
+                return body[0].value
+            raise Shape(f"{cls_node.name}.{method}: body is not a single return")
+    raise Shape(f"{cls_node.name}.{method} not found")
+
+
+def fact_action_table():
+    """(name, comma-joined group names) of the actions registered at import, in registration order."""
+    m = next(x for x in _info() if x.mod == "cut_finding.cutting_actions")
+    items = []
+    for st in m.tree.body:
+        if isinstance(st, ast.Expr) and isinstance(st.value, ast.Call):
+            c = st.value
+            if not (isinstance(c.func, ast.Attribute) and c.func.attr == "define_action"
+                    and isinstance(c.func.value, ast.Name) and c.func.value.id == "disjoint_subcircuit_actions"
+                    and len(c.args) == 1 and isinstance(c.args[0], ast.Call) and isinstance(c.args[0].func, ast.Name)
+                    and not c.args[0].args and not c.args[0].keywords and not c.keywords):
+                raise Shape(f"import-time call of unexpected shape: {_txt(c)}")
+            cls = m.classes.get(c.args[0].func.id)
+            if cls is None:
+                raise Shape(f"action class {c.args[0].func.id} not defined in cutting_actions")
+            name = _const_text(_single_return(cls, "get_name"))
+            groups = _single_return(cls, "get_group_names")
+            if not isinstance(groups, (ast.List, ast.Tuple)):
+                raise Shape(f"{cls.name}.get_group_names does not return a list display")
+            items.append((name, ",".join(_const_text(g) for g in groups.elts)))
+    if not items:
+        raise Shape("no registered actions")
+    return coq_pairs(items)
+
+
+SLOTS = ["cost_func", "next_state_func", "goal_state_func", "upperbound_cost_func", "mincost_bound_func"]
+
+
+def fact_func_tables():
+    """(module:slot, function name) for every module-level  X = SearchFunctions(slot=fn, …)  table, slots in
+    dataclass field order; an unset slot is "None"."""
+    ssg = next(x for x in _info() if x.mod == "cut_finding.search_space_generator")
+    cls = ssg.classes.get("SearchFunctions")
+    if cls is None:
+        raise Shape("SearchFunctions not found")
+    fields = [st.target.id for st in cls.body if isinstance(st, ast.AnnAssign) and isinstance(st.target, ast.Name)]
+    if fields != SLOTS:
+        raise Shape(f"SearchFunctions fields are {fields}")
+    if not any(isinstance(d, ast.Name) and d.id == "dataclass" for d in cls.decorator_list):
+        raise Shape("SearchFunctions is not a plain @dataclass")
+    items = []
+    for m in _info():
+        for st in m.tree.body:
+            if isinstance(st, ast.Assign) and isinstance(st.value, ast.Call) and isinstance(st.value.func, ast.Name) \
+                    and st.value.func.id == "SearchFunctions":
+                if st.value.args or len(st.targets) != 1 or not isinstance(st.targets[0], ast.Name):
+                    raise Shape(f"{m.mod}: SearchFunctions table of unexpected shape")
+                kw = {}
+                for k in st.value.keywords:
+                    if k.arg not in SLOTS or not isinstance(k.value, ast.Name):
+                        raise Shape(f"{m.mod}: SearchFunctions keyword {k.arg}={_txt(k.value)}")
+                    kw[k.arg] = k.value.id
+                for sl in SLOTS:
+                    items.append((f"{m.mod}:{st.targets[0].id}.{sl}", kw.get(sl, "None")))
+    if len(items) != 10:
+        raise Shape(f"expected two SearchFunctions tables, found {len(items) // 5}")
+    return coq_pairs(items)
+
+
 _T = "list (string * string)"
 FACTS = [
     ("c09_module_globals", _T, fact_module_globals),
     ("c09_import_time_calls", _T, fact_import_time_calls),
     ("c09_global_uses", _T, fact_global_uses),
     ("c09_global_writes", _T, fact_global_writes),
+    ("c09_action_table", _T, fact_action_table),
+    ("c09_func_tables", _T, fact_func_tables),
     ("c09_registry_classes", _T, fact_registry_classes),
     ("c09_registry_method_writes", _T, fact_registry_method_writes),
     ("c09_registry_mutator_calls", _T, fact_registry_mutator_calls),
